@@ -315,9 +315,9 @@ func cmdCheck(args []string) int {
 	for _, msg := range guardCoverage(P, CS, *prop) {
 		violation("lock.coverage:"+truncate(msg, 80), map[string]interface{}{"obligation": "lock.coverage", "error": msg}, false)
 	}
-	timeout := 20
+	timeout := 45 // the slowest obligation on the unchanged tree takes ~8 s on an idle machine; headroom for a loaded one
 	if *tier == "thorough" {
-		timeout = 60
+		timeout = 120
 	}
 	outDir := filepath.Join(root, "out", "smt", *prop)
 	os.RemoveAll(outDir)
